@@ -5,6 +5,7 @@
 pub struct IoError { pub _p: u8 }
 pub enum IoKind { InvalidData, UnexpectedEof, Other }
 pub type IoResult<T> = std::result::Result<T, IoError>;
+impl From<IoKind> for IoError { #[verifier::external_body] fn from(k: IoKind) -> (r: IoError) { unimplemented!() } }
 #[verifier::external_body] pub fn io_error_new(kind: IoKind, msg: Str) -> (r: IoError) { unimplemented!() }
 
 pub struct Reader { pub rem: Ghost<Seq<u8>> }
@@ -17,6 +18,13 @@ impl Reader {
                     && final(self)@ == old(self)@.skip(old(buf)@.len() as int),
                 old(self)@.len() < old(buf)@.len() ==> r.is_err(),
                 final(buf)@.len() == old(buf)@.len(),
+    { unimplemented!() }
+    // read_buf appends SOME prefix of the stream (whatever fits the buffer's spare capacity, which Verus does not
+    // track): 0 bytes only at end of stream
+    #[verifier::external_body]
+    pub fn read_buf(&mut self, buf: &mut Vec<u8>) -> (r: IoResult<usize>)
+        ensures r matches Ok(k) ==> k <= old(self)@.len() && (k == 0 ==> old(self)@.len() == 0)
+                    && final(buf)@ == old(buf)@ + old(self)@.take(k as int) && final(self)@ == old(self)@.skip(k as int),
     { unimplemented!() }
     #[verifier::external_body]
     pub fn read_u16(&mut self) -> (r: IoResult<u16>)
@@ -39,4 +47,3 @@ impl Writer {
     #[verifier::external_body] pub fn flush(&mut self) -> (r: IoResult<()>)
         ensures final(self)@ == old(self)@ { unimplemented!() }
 }
-#[verifier::external_body] pub fn u32_from_be_bytes(x: [u8; 4]) -> (r: u32) ensures r == be_u32_val(x@) { u32::from_be_bytes(x) }
